@@ -201,6 +201,12 @@ def run_case(ctx, case):
 
     def add_recorder(cls=Recorder):
         lb = new_label()
+        if case["seed"] % 6 == 3:
+            # a user who seeds the global random generator before building each component (for
+            # reproducibility): observers are told apart by identity, not by anything drawn
+            import random as _random
+            _random.seed(20261003)
+            ctx.count("observers_created_right_after_reseeding_the_global_generator")
         ob = cls(d, label=lb, log=log, probe=probe)
         subs.append(ob); labels[id(ob)] = lb
         script.append(("sub", lb))
